@@ -39,9 +39,10 @@ type post struct {
 
 type running struct {
 	*env
-	h      http.Handler
-	cancel context.CancelFunc
-	cfg    *config.Config
+	h           http.Handler
+	origStorage *core.Storage
+	cancel      context.CancelFunc
+	cfg         *config.Config
 }
 
 func startRunning(r *ev.Run) (*running, error) {
@@ -77,6 +78,7 @@ func startRunning(r *ev.Run) (*running, error) {
 	// same etcd prefix as the server's own storage, seen through the instrumented wrapper
 	ru.kv = kvx.New(kv.NewEtcdKVBase(s.GetClient(), s.GetServerRootPath()))
 	ru.store = core.NewStorage(ru.kv)
+	ru.origStorage = s.GetStorage()
 	s.SetStorage(ru.store)
 	h, _, err := api.NewHandler(ctx, s)
 	if err != nil {
